@@ -883,6 +883,15 @@ var scopeShapes = []struct{ name, text string }{
 	{"nested one-form scopes capture separately", "(def q (newScope (let [$X 1] (newScope (fn [] (set $X (+ $X 1)) $X))))) [(q) (q)]"},
 	{"closure made by a let initialiser sees the let's bindings", "(def $Y 9) [(let [$X (fn [] $Y) $Y 2] ($X)) (letseq [$X (fn [] $Y) $Y 3] ($X)) (let [$X (fn [] (set $Y (+ $Y 1)) $Y) $Y 5] [($X) $Y]) $Y]"},
 	{"let initialisers do not see the let's own names", "(def $X 1) (def $Y 2) [(let [$X $Y $Y $X] [$X $Y]) (letseq [$X $Y $Y $X] [$X $Y]) (let [$X (+ $X 10)] (let [$X (+ $X 100)] $X))]"},
+	// activation trees (mutation round 4, seeded/C03-m4: the parent of a function literal cached on the shared
+	// template at its first instantiation): EVERY level of a nest of makers is instantiated more than once, by
+	// different activations of the level above, and every leaf is observed — also after its siblings were made
+	{"activation tree: three levels, every level instantiated twice", "(defn $X [$Y] (fn [$Z] (fn [] (+ (* 100 $Y) $Z)))) (def p ($X 1)) (def q ($X 2)) (def r (p 3)) (def s (q 4)) [(r) (s) ((p 5)) ((q 6)) (r)]"},
+	{"activation tree: thunks between the binder and the use", "(defn $X [$Y] (fn [] (fn [] $Y))) [((($X 1))) ((($X 2))) (let [q ($X 3) r ($X 4)] [((q)) ((r)) ((q))])]"},
+	{"activation tree: four levels", "(defn $X [$Y] (fn [] (fn [$Z] (fn [] (+ (* 10 $Y) $Z))))) (def p (($X 1))) (def q (($X 2))) [((p 3)) ((q 4)) ((p 5))]"},
+	{"activation tree: the far variable is mutated per activation", "(defn $X [$Y] (fn [] (fn [] (set $Y (+ $Y 1)) $Y))) (def p (($X 10))) (def q (($X 20))) [(p) (q) (p) (q)]"},
+	{"activation tree: inner defn, then a thunk", "(defn $X [$Y] (defn $Z [] (fn [] $Y)) $Z) [((($X 1))) ((($X 2)))]"},
+	{"activation tree across texts", "(defn $X [$Y] (fn [] (fn [] $Y))) (def p ($X 1))\x00((p))\x00(def q ($X 2)) [((q)) ((p))]"},
 	{"maker called in a tail-recursive loop", "(defn $Z [$X] (fn [] $X)) (defn $Y [$X q] (cond (== $X 0) q ($Y (- $X 1) (append q ($Z $X))))) (map (fn [r] (r)) ($Y 3 []))"},
 }
 
